@@ -144,6 +144,9 @@ def jobs(tier):
         for kind in ('p2p', 'pdu2') + (('bam255',) if (q and L in (61, 121)) or not q else ()):
             J(L=L, kind=kind)
     J(L=121, kind='p2p', shape='twoway', L2=70, kind2='p2p', windows=[1, 2])
+    for ad in ([0, 0x20, 0x30], [0x10, 0, 0x30], [253, 1, 0]):
+        J(L=121, kind='p2p', addrs=ad)
+        J(L=61, kind='pdu2', addrs=ad)
     J(L=70, kind='p2p', shape='twoway', L2=181, kind2='p2p', windows=[3, 1])
     J(L=121, kind='p2p', shape='fanout', L2=70, kind2='pdu2', windows=[2, 2])
     J(L=121, kind='p2p', shape='twoway', L2=121, kind2='pdu2', windows=[1, 1])
